@@ -379,6 +379,7 @@ impl KeyPair {
 			} else {
 				panic!("Unknown SignatureAlgorithm specified!");
 			};
+			let serialized_der = pkcs8_der_of(&kind, is_pkcs8, &serialized_der)?;
 
 			Ok(KeyPair {
 				kind,
@@ -560,7 +561,7 @@ impl TryFrom<&PrivateKeyDer<'_>> for KeyPair {
 
 	fn try_from(key: &PrivateKeyDer) -> Result<KeyPair, Error> {
 		#[cfg(all(feature = "ring", not(feature = "aws_lc_rs")))]
-		let (kind, alg) = {
+		let (kind, alg, serialized_der) = {
 			let PrivateKeyDer::Pkcs8(pkcs8) = key else {
 				return Err(Error::CouldNotParseKeyPair);
 			};
@@ -585,10 +586,10 @@ impl TryFrom<&PrivateKeyDer<'_>> for KeyPair {
 				return Err(Error::CouldNotParseKeyPair);
 			};
 
-			(kind, alg)
+			(kind, alg, pkcs8.to_vec())
 		};
 		#[cfg(feature = "aws_lc_rs")]
-		let (kind, alg) = {
+		let (kind, alg, serialized_der) = {
 			let is_pkcs8 = matches!(key, PrivateKeyDer::Pkcs8(_));
 
 			let key = key.secret_der();
@@ -621,15 +622,34 @@ impl TryFrom<&PrivateKeyDer<'_>> for KeyPair {
 			} else {
 				return Err(Error::CouldNotParseKeyPair);
 			};
-			(kind, alg)
+			let serialized_der = pkcs8_der_of(&kind, is_pkcs8, key)?;
+			(kind, alg, serialized_der)
 		};
 
 		Ok(KeyPair {
 			kind,
 			alg,
-			serialized_der: key.secret_der().into(),
+			serialized_der,
 		})
 	}
+}
+
+/// Returns the PKCS#8 encoding of a key that was loaded from `input`.
+///
+/// aws-lc-rs also loads SEC1 and PKCS#1 encoded keys. Those are re-encoded, so that
+/// [`KeyPair::serialize_der`] and [`KeyPair::serialize_pem`] return PKCS#8 as documented
+/// whatever encoding the key was loaded from.
+#[cfg(all(feature = "crypto", feature = "aws_lc_rs"))]
+fn pkcs8_der_of(kind: &KeyPairKind, is_pkcs8: bool, input: &[u8]) -> Result<Vec<u8>, Error> {
+	use aws_lc_rs::encoding::AsDer;
+	if is_pkcs8 {
+		return Ok(input.to_vec());
+	}
+	Ok(match kind {
+		KeyPairKind::Ec(kp) => kp.to_pkcs8v1()._err()?.as_ref().to_vec(),
+		KeyPairKind::Rsa(kp, _) => kp.as_der()._err()?.as_ref().to_vec(),
+		_ => input.to_vec(),
+	})
 }
 
 /// The key size used for RSA key generation
